@@ -185,6 +185,10 @@ VARIANTS = [
       (S, _REQ, _AHEAD.replace('var expiry time.Time\n', 'expiry := signingTime.Add(24 * time.Hour)\n') + _REQ), (S, _NOW, _NOW_LOCALS), (S, _PATCH_EXPIRY, '')]),
  dict(name='expiry-ahead-never-set', expect='flagged(payload/expiry)', edits=[
       (S, _REQ, '\tsigningTime := time.Now()\n\tvar expiry time.Time\n' + _REQ), (S, _NOW, _NOW_LOCALS), (S, _PATCH_EXPIRY, '')]),
+ dict(name='expiry-never-set', file=S, expect='flagged(payload/expiry)', find=_PATCH_EXPIRY, replace=''),
+ dict(name='plugin-expiry-dropped', expect='flagged(payload/expiry-plugin)', edits=[
+      (SP, '\t\tExpiryDurationInSeconds: uint64(opts.ExpiryDuration / time.Second),\n', ''),
+      (SP, '\treq := &plugin.GenerateEnvelopeRequest{\n', '\t_ = time.Second\n\treq := &plugin.GenerateEnvelopeRequest{\n')]),
  # (2) the key spec is not the first parameter of the digest-algorithm lookup
  dict(name='benign-getdescriptor-params-swapped', expect='silent', edits=_SWAP),
  dict(name='getdescriptor-swapped-sha256-always', expect='flagged(payload/blob-digest-algorithm)', edits=_SWAP + [
@@ -215,6 +219,8 @@ VARIANTS = [
       replace=_GEN_METHOD.replace('\tdigester := hashAlgo.Digester()\n', '\tdigester := hashAlgo.Digester()\n\tb.contentMediaType, _, _ = strings.Cut(b.contentMediaType, ";")\n')),
  dict(name='generator-method-fixed-algorithm', file=N, expect='flagged(blob-descriptor/generator-algorithm)', find=_GEN,
       replace=_GEN_METHOD.replace('hashAlgo.Digester()', 'digest.SHA256.Digester()')),
+ dict(name='generator-method-not-returned', file=N, expect='flagged(blob-descriptor/generator-body)', find=_GEN,
+      replace=_GEN_METHOD.replace('\treturn describer.describe\n', '\t_ = describer.describe\n\treturn func(digest.Algorithm) (ocispec.Descriptor, error) { return ocispec.Descriptor{MediaType: contentMediaType}, nil }\n')),
  dict(name='generator-method-size-of-other-reader', file=N, expect='flagged(blob-descriptor/generator-body)', find=_GEN,
       replace=_GEN_METHOD.replace('io.Copy(digester.Hash(), b.reader)', 'io.Copy(digester.Hash(), io.LimitReader(b.reader, 1<<20))')),
 ]
